@@ -23,7 +23,8 @@ type frame struct {
 	e         *Exec
 	caller    *frame
 	fn        *ssa.Function
-	env       map[ssa.Value]Value
+	idx       map[ssa.Value]int32 // per-function numbering of SSA values (shared, read-only)
+	vals      []Value
 	block     *ssa.BasicBlock
 	prev      *ssa.BasicBlock
 	defers    *deferred
@@ -140,11 +141,15 @@ func (fr *frame) get(v ssa.Value) Value {
 	case *ssa.Builtin:
 		return v
 	}
-	r, ok := fr.env[v]
+	i, ok := fr.idx[v]
 	if !ok {
-		panic(abort("unset " + v.Name() + " in " + fr.fn.String()))
+		panic(abort("unnumbered value " + v.Name() + " in " + fr.fn.String()))
 	}
-	return r
+	return fr.vals[i]
+}
+
+func (fr *frame) set(v ssa.Value, x Value) {
+	fr.vals[fr.idx[v]] = x
 }
 
 func constVal(c *ssa.Const) Value {
@@ -451,6 +456,45 @@ func (e *Exec) callSSA(caller *frame, fn *ssa.Function, args []Value, env []Valu
 type fnInfo struct {
 	name string
 	ext  extFn
+	once sync.Once
+	idx  map[ssa.Value]int32
+}
+
+// numbering assigns a slot to every parameter, free variable and value-producing instruction of fn.
+func (fi *fnInfo) numbering(fn *ssa.Function) map[ssa.Value]int32 {
+	fi.once.Do(func() {
+		idx := map[ssa.Value]int32{}
+		add := func(v ssa.Value) {
+			if _, ok := idx[v]; !ok {
+				idx[v] = int32(len(idx))
+			}
+		}
+		for _, p := range fn.Params {
+			add(p)
+		}
+		for _, fv := range fn.FreeVars {
+			add(fv)
+		}
+		for _, l := range fn.Locals {
+			add(l)
+		}
+		for _, b := range fn.Blocks {
+			for _, ins := range b.Instrs {
+				if v, ok := ins.(ssa.Value); ok {
+					add(v)
+				}
+			}
+		}
+		if fn.Recover != nil {
+			for _, ins := range fn.Recover.Instrs {
+				if v, ok := ins.(ssa.Value); ok {
+					add(v)
+				}
+			}
+		}
+		fi.idx = idx
+	})
+	return fi.idx
 }
 
 var fnInfoCache sync.Map // *ssa.Function -> *fnInfo
@@ -495,21 +539,22 @@ func (e *Exec) callSSAraw(caller *frame, fn *ssa.Function, args []Value, env []V
 		panic(abort("call depth > 400 (unwinding bound)"))
 	}
 	defer func() { e.depth-- }()
-	fr := &frame{e: e, caller: caller, fn: fn, env: make(map[ssa.Value]Value, 32)}
+	fr := &frame{e: e, caller: caller, fn: fn, idx: fi.numbering(fn)}
+	fr.vals = make([]Value, len(fr.idx))
 	fr.block = fn.Blocks[0]
 	for _, l := range fn.Locals {
 		z := zero(l.Type().(*types.Pointer).Elem())
 		p := &z
-		fr.env[l] = p
+		fr.set(l, p)
 		if e.merge != nil {
 			e.merge.registerCells(p)
 		}
 	}
 	for i, p := range fn.Params {
-		fr.env[p] = args[i]
+		fr.set(p, args[i])
 	}
 	for i, fv := range fn.FreeVars {
-		fr.env[fv] = env[i]
+		fr.set(fv, env[i])
 	}
 	for fr.block != nil {
 		fr.runFrame()
@@ -601,7 +646,7 @@ func (fr *frame) executePhis() {
 		temps = append(temps, fr.get(phi.Edges[idx]))
 	}
 	for i, phi := range phis {
-		fr.env[phi] = temps[i]
+		fr.set(phi, temps[i])
 	}
 }
 
@@ -692,24 +737,24 @@ func (fr *frame) visit(instr ssa.Instruction) continuation {
 	switch ins := instr.(type) {
 	case *ssa.DebugRef:
 	case *ssa.UnOp:
-		fr.env[ins] = e.unop(ins, fr.get(ins.X))
+		fr.set(ins, e.unop(ins, fr.get(ins.X)))
 	case *ssa.BinOp:
-		fr.env[ins] = e.binop(ins.Op, ins.X.Type(), fr.get(ins.X), fr.get(ins.Y))
+		fr.set(ins, e.binop(ins.Op, ins.X.Type(), fr.get(ins.X), fr.get(ins.Y)))
 	case *ssa.Call:
 		fn, args := fr.prepareCall(&ins.Call)
-		fr.env[ins] = e.call(fr, fn, args, ins.Pos())
+		fr.set(ins, e.call(fr, fn, args, ins.Pos()))
 	case *ssa.ChangeInterface:
-		fr.env[ins] = fr.get(ins.X)
+		fr.set(ins, fr.get(ins.X))
 	case *ssa.ChangeType:
-		fr.env[ins] = fr.get(ins.X)
+		fr.set(ins, fr.get(ins.X))
 	case *ssa.Convert:
-		fr.env[ins] = e.conv(ins.Type(), ins.X.Type(), fr.get(ins.X))
+		fr.set(ins, e.conv(ins.Type(), ins.X.Type(), fr.get(ins.X)))
 	case *ssa.MakeInterface:
-		fr.env[ins] = Iface{T: ins.X.Type(), V: copyVal(fr.get(ins.X))}
+		fr.set(ins, Iface{T: ins.X.Type(), V: copyVal(fr.get(ins.X))})
 	case *ssa.Extract:
-		fr.env[ins] = fr.get(ins.Tuple).(Tuple)[ins.Index]
+		fr.set(ins, fr.get(ins.Tuple).(Tuple)[ins.Index])
 	case *ssa.Slice:
-		fr.env[ins] = e.slice(fr.get(ins.X), ins, fr)
+		fr.set(ins, e.slice(fr.get(ins.X), ins, fr))
 	case *ssa.Return:
 		switch len(ins.Results) {
 		case 0:
@@ -796,12 +841,12 @@ func (fr *frame) visit(instr ssa.Instruction) continuation {
 		z := zero(ins.Type().(*types.Pointer).Elem())
 		if ins.Heap {
 			p := &z
-			fr.env[ins] = p
+			fr.set(ins, p)
 			if e.merge != nil {
 				e.merge.registerCells(p)
 			}
 		} else {
-			addr := fr.env[ins].(*Value)
+			addr := fr.vals[fr.idx[ins]].(*Value)
 			if e.merge != nil && !e.merge.cells[addr] {
 				panic(mergeAbort{"local re-initialised inside pure region"})
 			}
@@ -819,15 +864,15 @@ func (fr *frame) visit(instr ssa.Instruction) continuation {
 		for i := range full {
 			full[i] = zero(et)
 		}
-		fr.env[ins] = s
+		fr.set(ins, s)
 	case *ssa.MakeMap:
 		mt := ins.Type().Underlying().(*types.Map)
 		e.mapSeq++
-		fr.env[ins] = &Map{KT: mt.Key(), VT: mt.Elem(), id: e.mapSeq}
+		fr.set(ins, &Map{KT: mt.Key(), VT: mt.Elem(), id: e.mapSeq})
 	case *ssa.Range:
-		fr.env[ins] = e.rangeIter(fr.get(ins.X), ins.X.Type())
+		fr.set(ins, e.rangeIter(fr.get(ins.X), ins.X.Type()))
 	case *ssa.Next:
-		fr.env[ins] = fr.get(ins.Iter).(iter).next(e)
+		fr.set(ins, fr.get(ins.Iter).(iter).next(e))
 	case *ssa.FieldAddr:
 		p := fr.ptr(ins.X)
 		if p == nil {
@@ -840,9 +885,9 @@ func (fr *frame) visit(instr ssa.Instruction) continuation {
 				e.event("use-after-put", "use-after-put", fmt.Sprintf("field %s of %s accessed in %s while the object is in its pool (put at %s)", fname, ins.X.Type(), fr.fn.Name(), w))
 			}
 		}
-		fr.env[ins] = &(*p).(Structure)[ins.Field]
+		fr.set(ins, &(*p).(Structure)[ins.Field])
 	case *ssa.Field:
-		fr.env[ins] = copyVal(fr.get(ins.X).(Structure)[ins.Field])
+		fr.set(ins, copyVal(fr.get(ins.X).(Structure)[ins.Field]))
 	case *ssa.IndexAddr:
 		x := fr.get(ins.X)
 		i := int(sx(e.concretize(fr.term(ins.Index), 64), 64))
@@ -851,7 +896,7 @@ func (fr *frame) visit(instr ssa.Instruction) continuation {
 			if i < 0 || i >= len(x) {
 				panic(goPanic{fmt.Sprintf("runtime error: index out of range [%d] with length %d", i, len(x))})
 			}
-			fr.env[ins] = &x[i]
+			fr.set(ins, &x[i])
 		case *Value:
 			if x == nil {
 				panic(nilDeref())
@@ -860,7 +905,7 @@ func (fr *frame) visit(instr ssa.Instruction) continuation {
 			if i < 0 || i >= len(a) {
 				panic(goPanic{fmt.Sprintf("runtime error: index out of range [%d] with length %d", i, len(a))})
 			}
-			fr.env[ins] = &a[i]
+			fr.set(ins, &a[i])
 		case Stale:
 			panic(staleRead{x.Where})
 		default:
@@ -874,9 +919,9 @@ func (fr *frame) visit(instr ssa.Instruction) continuation {
 			if i < 0 || i >= len(x) {
 				panic(goPanic{fmt.Sprintf("runtime error: index out of range [%d] with length %d", i, len(x))})
 			}
-			fr.env[ins] = x[i]
+			fr.set(ins, x[i])
 		case Array:
-			fr.env[ins] = copyVal(x[i])
+			fr.set(ins, copyVal(x[i]))
 		case string:
 			if hasTok(x) {
 				panic(abort("indexing a string holding symbolic atoms"))
@@ -884,12 +929,12 @@ func (fr *frame) visit(instr ssa.Instruction) continuation {
 			if i < 0 || i >= len(x) {
 				panic(goPanic{fmt.Sprintf("runtime error: index out of range [%d] with length %d", i, len(x))})
 			}
-			fr.env[ins] = cBV(uint64(x[i]), 8)
+			fr.set(ins, cBV(uint64(x[i]), 8))
 		default:
 			panic(abort(fmt.Sprintf("Index on %T", x)))
 		}
 	case *ssa.Lookup:
-		fr.env[ins] = e.lookup(ins, fr.get(ins.X), fr.get(ins.Index))
+		fr.set(ins, e.lookup(ins, fr.get(ins.X), fr.get(ins.Index)))
 	case *ssa.MapUpdate:
 		if e.merge != nil {
 			panic(mergeAbort{"map update inside pure region"})
@@ -911,13 +956,13 @@ func (fr *frame) visit(instr ssa.Instruction) continuation {
 		if st, ok := x.(Stale); ok {
 			panic(staleRead{st.Where})
 		}
-		fr.env[ins] = e.typeAssert(ins, x.(Iface))
+		fr.set(ins, e.typeAssert(ins, x.(Iface)))
 	case *ssa.MakeClosure:
 		var bindings []Value
 		for _, b := range ins.Bindings {
 			bindings = append(bindings, fr.get(b))
 		}
-		fr.env[ins] = &Closure{Fn: ins.Fn.(*ssa.Function), Env: bindings}
+		fr.set(ins, &Closure{Fn: ins.Fn.(*ssa.Function), Env: bindings})
 	case *ssa.Phi:
 		panic("phi")
 	default:
